@@ -190,6 +190,12 @@ HookedEval, HookedCachedEval = _hooked_eval(EvaluationMapper), _hooked_eval(Cach
 # }}}
 
 
+def _power_over_wrapper(e):
+    return any(isinstance(x, (p.Power, p.LeftShift))
+               and any(isinstance(y, p.CommonSubexpression) for y in G.walk(x))
+               for x in G.walk(e))
+
+
 def subobjects(pool):
     out = []
     for e in pool:
@@ -266,11 +272,16 @@ def c_history(ctx, case):
         """a power tower the reference refuses (> 2M-bit result): Python itself would not
         finish (-2) ** (4 ** 343); nothing to compare"""
         if ei not in costly:
+            # (a history evaluates the same expression dozens of times -- several instances,
+            #  fresh counterparts, explanation runs: the bound here is 100 000 bits, not 2M)
+            old_bits, refsem.MAX_BITS = refsem.MAX_BITS, 100_000
             try:
                 refsem.outcome(lambda: refsem.ev(pool[ei], env))
                 costly[ei] = False
             except refsem.TooCostly:
                 costly[ei] = True
+            finally:
+                refsem.MAX_BITS = old_bits
         return costly[ei]
 
     def replay(name, mk, fresh, takes_args, w):
@@ -280,6 +291,11 @@ def c_history(ctx, case):
             e = pool[ei]
             if "evaluat" in name and too_costly(ei):
                 ctx.count("evaluation_too_costly_skipped")
+                continue
+            if name == "evaluation+hook" and _power_over_wrapper(e):
+                # (the hooked pair adds 1000 per wrapper: (CSE(3) << CSE(z)) ** ... has 300-digit
+                #  operands there -- a cost of this harness's own hook, nothing to compare)
+                ctx.count("hooked_evaluation_skipped_power_over_wrapper")
                 continue
             if not takes_args:
                 a, kw = (), {}
